@@ -450,3 +450,19 @@ package base
 //@   loop 0 invariant[C17] forall(k, "ti/base.FrameKey", has(originalFrame, k) && old(has(currentFrame, k)) ==> has(currentFrame, k) && currentFrame[k] == old(currentFrame[k]))
 //@   ensures[C17] forall(k, "ti/base.FrameKey", has(currentFrame, k) ==> has(originalFrame, k))
 //@   ensures[C17] forall(k, "ti/base.FrameKey", has(originalFrame, k) && old(has(currentFrame, k)) ==> has(currentFrame, k) && currentFrame[k] == old(currentFrame[k]))
+
+//@ # ---- C08: a union argument whose variants are all accepted fits a union parameter ----
+//@ spec variantTypesWithin(a, d) = forall(i, 0 <= i && i < len(a.variants) ==> a.variants[i].tType == UNTYPED || exists(j, 0 <= j && j < len(d.variants) && d.variants[j].tType == a.variants[i].tType))
+//@ func (*ti/base.T).GetVariantTypes
+//@   requires t != nil
+//@   ensures[C08] len(result) == len(t.variants) && forall(i, 0 <= i && i < len(t.variants) ==> result[i] == t.variants[i].tType)
+//@   # the same fact indexed by the position in the result's backing array (a second trigger shape)
+//@   ensures[C08] forall(k, offof(result) <= k && k < offof(result) + len(result) ==> absat(result, k) == t.variants[k - offof(result)].tType)
+//@   loop 0 invariant[C08] rangeindex + 1 <= len(t.variants) && len(types) == rangeindex + 1
+//@   loop 0 invariant[C08] forall(i, 0 <= i && i < len(types) ==> types[i] == t.variants[i].tType)
+//@   loop 0 invariant[C08] forall(k, offof(types) <= k && k < offof(types) + len(types) ==> absat(types, k) == t.variants[k - offof(types)].tType)
+//@ func (*ti/base.T).IsSupersetUnionOf
+//@   inline 6 1
+//@   loop 0 invariant[C08] rangeindex + 1 <= len(argT.variants)
+//@   loop 0 invariant[C08] forall(i, 0 <= i && i <= rangeindex ==> argT.variants[i].tType == UNTYPED || exists(j, 0 <= j && j < len(t.variants) && t.variants[j].tType == argT.variants[i].tType))
+//@   ensures[C08] result == (t != nil && argT != nil && t.tType == UNION && argT.tType == UNION && variantTypesWithin(argT, t))
